@@ -180,6 +180,15 @@ func setLetter(name, verb, key string, flag uint32, rev int, body string, norepl
 func protoAlphabet() []Letter {
 	big := strings.Repeat("compress me please, compress me please. ", 8) // 320 bytes, compressible
 	c65 := strings.Repeat("x", 65)
+	// moderately compressible text (ratio around 0.5): the compressed copy is still larger than body_c_str (64)
+	words := []string{"alpha", "bravo", "charlie", "delta", "echo", "foxtrot", "golf", "hotel", "india", "juliet", "kilo", "lima", "mike", "november", "oscar", "papa"}
+	lcg := uint32(7)
+	text600 := ""
+	for len(text600) < 600 {
+		lcg = lcg*1664525 + 1013904223
+		text600 += words[(lcg>>24)%16] + " "
+	}
+	text600 = text600[:600]
 	var al []Letter
 	w := func(name, raw string, f func(md *Model, ts uint32) *Reply) {
 		al = append(al, Letter{Name: name, Raw: raw, Class: "W", Apply: f})
@@ -202,6 +211,7 @@ func protoAlphabet() []Letter {
 	al = append(al, setLetter("set-a-rev1-c65", "set", "a", 0, 1, c65+"r", false, "")) // explicit revision 1: refused (silently) once a exists; C-allocated value
 	al = append(al, setLetter("set-b-rev1-big", "set", "b", 0, 1, big+"r", false, ""))
 	al = append(al, setLetter("set-b-big", "set", "b", 0, 0, big, false, ""))
+	al = append(al, setLetter("set-b-text600", "set", "b", 0, 0, text600, false, "")) // stored compressed, compressed copy C-allocated
 	al = append(al, setLetter("set-a-num", "set", "a", store.FLAG_INCR, 0, "10", false, ""))
 	w("delete-a", "delete a\r\n", func(md *Model, ts uint32) *Reply { return lineReply(md.Delete("a", ts)) })
 	w("delete-b-noreply", "delete b noreply\r\n", func(md *Model, ts uint32) *Reply { md.Delete("b", ts); return nil })
